@@ -1,7 +1,8 @@
 (* C08 property theorems. Only statements closed by [exact lemma] + Print Assumptions. *)
 From Coq Require Import String.
 From V Require Import Common.Base C08.SortPerm C08.Comparators C08.CmpTheory C08.ComparatorProofs
-  C08.Dfs C08.DfsProofs C08.Serializer C08.SerializerProofs gen.MapSitesGen C08.MapSites C08.MapSitesProofs.
+  C08.Dfs C08.DfsProofs C08.Serializer C08.SerializerProofs gen.MapSitesGen C08.MapSites C08.MapSitesProofs
+  C08.Diagnostics C08.Scanner C08.ScannerProofs C08.Consumers gen.SortKeysGen C08.CollectSort.
 From Coq Require Import Permutation Sorted.
 
 (* ================= order-insensitivity of sorting and folding ================= *)
@@ -230,3 +231,122 @@ Theorem sorted_after_sites_have_sort :
   existsb (site_eqb s) sites_with_sort_after = true.
 Proof. exact sorted_after_forall. Qed.
 Print Assumptions sorted_after_sites_have_sort.
+
+(* ================= deepening round ================= *)
+
+(* ---- stable sorts: the result is determined by the multiset and by the
+   arrival order inside each tie class ---- *)
+Theorem stable_sort_determined_by_tie_classes :
+  forall (A : Type) (ltb : A -> A -> bool), StrictWeak ltb ->
+  forall s s', SortedBy ltb s -> SortedBy ltb s' -> Permutation s s' ->
+    (forall k, filter (tied ltb k) s = filter (tied ltb k) s') -> s = s'.
+Proof. exact (@sorted_classes_unique). Qed.
+Print Assumptions stable_sort_determined_by_tie_classes.
+
+Theorem stable_sort_invariant :
+  forall (A : Type) (ltb : A -> A -> bool), StrictWeak ltb ->
+  forall l l', Permutation l l' -> (forall k, filter (tied ltb k) l = filter (tied ltb k) l') ->
+    isort ltb l = isort ltb l'.
+Proof. exact (@stable_sort_invariant_gen). Qed.
+Print Assumptions stable_sort_invariant.
+
+(* ---- diagnostics: what makes the final message list schedule-independent:
+   same messages, same relative order of the location-less ones, and located
+   messages with equal (file, line, column, kind, text) identical ---- *)
+Theorem diagnostics_schedule_independent :
+  forall l l', Permutation l l' ->
+  filter locless l = filter locless l' ->
+  (forall a b, In a l -> In b l -> locless a = false -> msg_key a = msg_key b -> a = b) ->
+  isort msg_less l = isort msg_less l'.
+Proof. exact msgs_schedule_independent_gen. Qed.
+Print Assumptions diagnostics_schedule_independent.
+(* the middle hypothesis cannot be dropped (findings C08-G1/G2/G3 were its violations) *)
+Theorem diagnostics_without_locationless_order_refuted :
+  exists l l', Permutation l l' /\
+    (forall a b, In a l -> In b l -> locless a = false -> msg_key a = msg_key b -> a = b) /\
+    isort msg_less l <> isort msg_less l'.
+Proof. exact msgs_schedule_dependent_witness. Qed.
+Print Assumptions diagnostics_without_locationless_order_refuted.
+
+(* ---- the scan phase as a transition system ---- *)
+(* DFS equivariance when the renamed graph is known only on a closed set of files *)
+Theorem dfs_equivariant_on_closed_set :
+  forall (rho : Z -> Z), (forall x y, rho x = rho y -> x = y) ->
+  forall g g' (S : Z -> Prop), (forall n c, S n -> In c (g n) -> S c) ->
+  (forall n, S n -> g' (rho n) = map rho (g n)) ->
+  forall fuel roots, (forall r, In r roots -> S r) ->
+  reach_order fuel g' (map rho roots) = option_map (map rho) (reach_order fuel g roots).
+Proof. exact reach_order_equiv_on. Qed.
+Print Assumptions dfs_equivariant_on_closed_set.
+
+(* whatever the order in which parse results arrive, source indices are an injective renaming of files *)
+Theorem scan_allocation_injective :
+  forall imports roots sched st, run_scan imports (fst (scan_init roots)) sched = Some st ->
+  forall f g, index_of_file st f = index_of_file st g -> f = g.
+Proof. exact scan_allocation_injective_gen. Qed.
+Print Assumptions scan_allocation_injective.
+
+(* ... and when all results have arrived, the import records hold the renamed file graph *)
+Theorem scan_graph_is_renamed :
+  forall imports roots sched st, run_scan imports (fst (scan_init roots)) sched = Some st -> scan_complete st = true ->
+  forall f i, lookupz f (sc_vis st) = Some i -> graph_of_scan st i = map (index_of_file st) (imports f).
+Proof. exact scan_graph_is_renamed_gen. Qed.
+Print Assumptions scan_graph_is_renamed.
+
+(* hence, for EVERY schedule, the stable (DFS) order computed from the
+   scanner's output is the file-level DFS order, renamed by that run *)
+Theorem scan_stable_order_schedule_independent :
+  forall imports roots sched st fuel,
+  run_scan imports (fst (scan_init roots)) sched = Some st -> scan_complete st = true ->
+  snd (scan_init roots) = map (index_of_file st) roots /\
+  reach_order fuel (graph_of_scan st) (map (index_of_file st) roots)
+  = option_map (map (index_of_file st)) (reach_order fuel imports roots).
+Proof. exact scan_stable_order. Qed.
+Print Assumptions scan_stable_order_schedule_independent.
+
+(* a consumer ordering items by (StableSourceIndices[src], inner) sees the same
+   FILE-level order in any two complete runs *)
+Theorem linker_stable_sort_schedule_independent :
+  forall imports roots sched1 sched2 st1 st2 fuel,
+  run_scan imports (fst (scan_init roots)) sched1 = Some st1 ->
+  run_scan imports (fst (scan_init roots)) sched2 = Some st2 ->
+  scan_complete st1 = true -> scan_complete st2 = true ->
+  forall items,
+    isort (fun a b => stableRef_less (as_stable_ref st1 (linker_order st1 fuel roots) a) (as_stable_ref st1 (linker_order st1 fuel roots) b)) items
+    = isort (fun a b => stableRef_less (as_stable_ref st2 (linker_order st2 fuel roots) a) (as_stable_ref st2 (linker_order st2 fuel roots) b)) items.
+Proof. exact stable_sort_two_schedules. Qed.
+Print Assumptions linker_stable_sort_schedule_independent.
+
+(* with the raw arrival-order index as key (the seeded change in
+   renameSymbolsInChunk) the full statement is false: two schedules, two orders *)
+Theorem raw_source_index_sort_key_refuted :
+  exists st1 st2,
+    run_scan ex_imports (fst (scan_init ex_roots)) ex_sched1 = Some st1 /\ scan_complete st1 = true /\
+    run_scan ex_imports (fst (scan_init ex_roots)) ex_sched2 = Some st2 /\ scan_complete st2 = true /\
+    isort (fun a b => stableRef_less (as_raw_ref st1 a) (as_raw_ref st1 b)) ex_items
+    <> isort (fun a b => stableRef_less (as_raw_ref st2 a) (as_raw_ref st2 b)) ex_items.
+Proof. exact raw_index_sort_schedule_dependent. Qed.
+Print Assumptions raw_source_index_sort_key_refuted.
+
+(* the hypothesis "order-sensitive consumers use the stable index", tied to the
+   source: every stableRef / StableSymbolCount / chunkOrder literal takes its key
+   from StableSourceIndices, no comparator reads a raw source index, and nothing
+   sorted with sort.Ints/sort.Strings is built from one (regenerated by T4) *)
+Theorem no_raw_source_index_sort_keys :
+  (forall f g fld e b, In (f, g, fld, e, b) stable_key_inits -> b = true) /\
+  (forall u, In u less_raw_index_uses -> existsb (triple_eqb u) allowed_less_raw_uses = true) /\
+  (forall f g srt e b, In (f, g, srt, e, b) sorted_append_exprs -> b = false).
+Proof. exact (conj stable_key_inits_forall (conj less_raw_uses_allowed sorted_appends_forall)). Qed.
+Print Assumptions no_raw_source_index_sort_keys.
+
+(* ---- per-site statements for the regular collect-then-sort sites (T4) ---- *)
+Theorem regular_sites_order_independent :
+  forall s k, In (s, k) regular_collect_sort_sites ->
+  sorter_statement k /\ (exists how, class_of s = Some (SortedAfter how)).
+Proof. exact regular_sites_forall. Qed.
+Print Assumptions regular_sites_order_independent.
+
+(* the sites classified "sorted afterwards" are exactly the regular ones plus five listed by name *)
+Theorem sorted_after_sites_regular_or_listed : sorted_after_regular_or_listed = true.
+Proof. exact sorted_after_regular_or_listed_true. Qed.
+Print Assumptions sorted_after_sites_regular_or_listed.
